@@ -274,3 +274,72 @@ func stripDotNormalisation(v ssa.Value) ssa.Value {
 	}
 	return v
 }
+
+// opBody is a function that carries out (part of) an operation of a root method: the root itself, or a function of
+// the same package that the root calls statically and hands some of its own parameters to unchanged. Rules anchored
+// in one method (Rename, ...) look at every body, reading the root's parameters through params — extracting the
+// second half of a long method into a helper moves the constructs, not the behaviour.
+type opBody struct {
+	fn     *ssa.Function
+	params map[*ssa.Parameter]*ssa.Parameter // root parameter -> this body's parameter
+	call   *ssa.Call                         // the call in the root (nil for the root itself)
+}
+
+func (b opBody) param(rootParam *ssa.Parameter) *ssa.Parameter {
+	if b.call == nil {
+		return rootParam
+	}
+	return b.params[rootParam]
+}
+
+func opBodies(root *ssa.Function) []opBody {
+	out := []opBody{{fn: root}}
+	if root == nil || root.Blocks == nil {
+		return out
+	}
+	seen := map[*ssa.Function]bool{root: true}
+	ssax.Instrs(root, func(ins ssa.Instruction) {
+		cl, ok := ins.(*ssa.Call)
+		if !ok {
+			return
+		}
+		callee := ssax.StaticCallee(cl)
+		if callee == nil || seen[callee] || callee.Blocks == nil || callee.Pkg != root.Pkg || len(callee.Params) != len(cl.Call.Args) {
+			return
+		}
+		m := map[*ssa.Parameter]*ssa.Parameter{}
+		for i, a := range cl.Call.Args {
+			if rp, ok := a.(*ssa.Parameter); ok && rp.Parent() == root && i > 0 {
+				m[rp] = callee.Params[i]
+			}
+		}
+		if len(m) == 0 {
+			return
+		}
+		seen[callee] = true
+		out = append(out, opBody{fn: callee, params: m, call: cl})
+	})
+	return out
+}
+
+// bodyOf: the opBody of an exported method of the same receiver type that fn is a helper body of (nil if none).
+func bodyOf(methods map[string]*ssa.Function, fn *ssa.Function) (*ssa.Function, *opBody) {
+	var names []string
+	for n := range methods {
+		names = append(names, n)
+	}
+	sort.Strings(names)
+	for _, n := range names {
+		root := methods[n]
+		if root == nil || root == fn || root.Object() == nil || !root.Object().Exported() {
+			continue
+		}
+		for _, b := range opBodies(root) {
+			if b.fn == fn && b.call != nil {
+				b := b
+				return root, &b
+			}
+		}
+	}
+	return nil, nil
+}
